@@ -25,6 +25,8 @@ Suites
             uniform numbers forced, noisy accessor histories, repeated execution), results holding
             frequencies only, gates with parameters in measurement symbols, on_qubits / real-sampler searches
             (QV/Model/Bitflip.lean, QOp.pgate of QV/Model/Repeated.lean)
+  scale     tools/props/C03_scale.py: collapse_state / collapse_density_matrix and collapsing circuits on
+            9-12 qubits (measured subsets of every size, unmeasured qubits >= 8, distinct per-qubit states)
 """
 from __future__ import annotations
 
@@ -2168,6 +2170,9 @@ def run(ctx):
     from props import C03_bitflip
 
     C03_bitflip.run_suites(ctx)
+    from props import C03_scale
+
+    C03_scale.run_suites(ctx)
     ctx.notes.append(
         "probabilities: every ordered qubit list for n<=4 (+ random n<=6/7) on Gaussian-integer states and non-Hermitian integer density matrices, "
         "through the backend functions, QuantumState and CircuitResult; binary/decimal/frequency primitives incl. batching with small SHOT_BATCH_SIZE; "
